@@ -210,6 +210,10 @@ def run(model: Model, rep: Report) -> None:
     optional_number_truth_rule(model, rep, "C16-R7", [f for q, f in sorted(model.funcs.items()) if q.startswith("pdfminer.pdfinterp.PDFPageInterpreter.do_")], 8)
 
     # ---------------------------------------------------------------- R6
+    r11 = rep.rule("C16-R11", "COPYFIELDS", "the graphics-state snapshot pushed by q is complete: PDFGraphicState.copy() transfers every field the state has (line width, cap, join, miter limit, dash, intent, flatness, colours)", 1)
+    from .c05 import state_copy_instances
+
+    state_copy_instances(model, r11, ("PDFGraphicState",))
     r6 = rep.rule("C16-R6", "COPYFIELDS", "q saves every piece of graphics state that the state operators write", 3)
     gcs = model.func(INTERP + ".get_current_state")
     ret = [n for n in walk_no_nested(gcs.node) if isinstance(n, ast.Return)]
